@@ -700,6 +700,9 @@ func (s *subtreeRun) famRoundTrip(n int) {
 func subtreeFunctionLines(tr *Trace, st *Stats, r *Rand, thorough bool) {
 	// ValidSubtree
 	emitV := func(s, e int64) {
+		if s < 0 || e < 0 {
+			return // the handler refuses negative numbers before calling ValidSubtree
+		}
 		tr.Line("vs %d %d %d", s, e, witnessB2I(torchwood.ValidSubtree(s, e)))
 		st.Count(fmt.Sprintf("validSubtree:%v", torchwood.ValidSubtree(s, e)))
 		st.Eval(fmt.Sprintf("vs|%d|%d", s, e), true)
